@@ -9,11 +9,15 @@ import (
 	"context"
 	"database/sql"
 
+	"github.com/milvus-io/milvus/pkg/util/lock"
 	clientv3 "go.etcd.io/etcd/client/v3"
 
 	api2 "github.com/zilliztech/milvus-cdc/core/api"
 	"github.com/zilliztech/milvus-cdc/core/log"
 )
+
+// VerifResetLocks: a new process incarnation starts with no position record lock held.
+func VerifResetLocks() { positionUpdateLocks = lock.NewKeyLock[string]() }
 
 func NewVerifEtcdMetaStore(cli *clientv3.Client, rootPath string, rep api2.ReplicateStore) *EtcdMetaStore {
 	txnMap := make(map[any][]clientv3.Op)
